@@ -1436,13 +1436,16 @@ mod chain_tests {
     use super::*;
     use std::io::Cursor;
     #[test]
-    fn length_chain_images_open() {
+    fn length_chain_images_are_well_formed_up_to_the_chain() {
         for seed in 0..5 {
             let img = length_chain_image(seed);
             let r = mp4::Mp4Reader::read_header(Cursor::new(img.clone()), img.len() as u64);
+            // before fix ab3439b these images opened (after re-reading T x 128 KiB); with it the
+            // first over-long parameter set is rejected. Either way the structure is as intended
+            // when nothing else is wrong with the image.
             match r {
                 Ok(r) => eprintln!("seed {seed}: n={} tracks={}", img.len(), r.tracks().len()),
-                Err(e) => panic!("seed {seed}: n={} does not open: {e}", img.len()),
+                Err(e) => assert!(format!("{e}").contains("avcC parameter set"), "seed {seed}: unexpected error {e}"),
             }
         }
     }
